@@ -45,6 +45,10 @@ var sourceAllowed = []string{
 	"slices", "math/bits", "strconv", "errors", "math", "cmp", "internal/bytealg", "internal/stringslite",
 }
 
+var sourceAllowedFuncs = []string{
+	"(github.com/cosmos/cosmos-sdk/types.Coin).", "(github.com/cosmos/cosmos-sdk/types.Coins).",
+}
+
 func (w *Worker) runFromSource(name string) bool { return false }
 
 func (w *Worker) allowedSource(fn *ssa.Function) bool {
@@ -61,6 +65,12 @@ func (w *Worker) allowedSource(fn *ssa.Function) bool {
 	path := p.Pkg.Path()
 	for _, a := range sourceAllowed {
 		if path == a {
+			return true
+		}
+	}
+	name := fn.String()
+	for _, a := range sourceAllowedFuncs {
+		if strings.HasPrefix(name, a) {
 			return true
 		}
 	}
